@@ -328,6 +328,9 @@ def _block_first_word(lines, i):
     return ''
 
 
+LENIENT = [False]   # set by the runner on a retry: an in-body clause block that lost its loop / closure header is dropped
+
+
 def hoist(lines, fname):
     """lines: list of (origin, text).  Clause blocks (annotation lines whose block starts with a clause keyword)
     are moved in front of the `{` or `;` that ends the preceding code line; fn return values get the name r."""
@@ -363,7 +366,16 @@ def hoist(lines, fname):
             out[k] = (out[k][0], hdr[:-1].rstrip())
             # locate construct keyword by backward token scan over the text so far
             prefix = '\n'.join(t for (_, t) in out)
-            kind, patched = _patch_header(prefix, block, fname, org[1])
+            try:
+                kind, patched = _patch_header(prefix, block, fname, org[1])
+            except Undecided:
+                if not LENIENT[0]:
+                    raise
+                # the loop / closure this invariant or contract belonged to is gone (restructured body): the block is
+                # dropped; the function is then verified without it (and treated as restructured by the runner)
+                out[k] = (out[k][0], hdr)
+                i = j
+                continue
             newlines = patched.split('\n')
             # rebuild `out` texts keeping origins (header patch never changes the number of lines)
             assert len(newlines) == len(out)
